@@ -1,5 +1,5 @@
 (* C17 — ordering signals: a waiter runs after, and once per, each production. *)
-From HG Require Import Base Engine Exec EngineProofs Samples.
+From HG Require Import Base Engine Exec EngineProofs Provenance Samples.
 From stdpp Require Import gmap.
 
 (* safety *)
@@ -7,6 +7,18 @@ Theorem C17_after : forall g st W s,
   In W (ready_list g st) -> In s (n_wait W) -> vals (ready_state g st) !! s <> None.
 Proof. exact waiter_after. Qed.
 Print Assumptions C17_after.
+
+(* ... and, in every state a run reaches (any graph: gates, cycles; either runner), that value was WRITTEN BY A PRODUCER THAT
+   HAS COMPLETED an execution (unless the caller injected the signal name): every present value was provided or is an
+   output of an executed node - the provenance invariant of Provenance.v. *)
+Theorem C17_after_producer : forall exec g pv,
+  (forall n s ins outs dec, exec n s ins = OOk outs dec -> forall k, In k (dkeys outs) -> In k (n_outputs n)) ->
+  forall r k st W s,
+  steps exec r g pv k (init_state pv) st ->
+  In W (ready_list g st) -> In s (n_wait W) -> dmem pv s = false ->
+  exists P, In P (g_nodes g) /\ In s (n_outputs P) /\ execs (ready_state g st) !! n_name P <> None.
+Proof. exact waiter_after_producer. Qed.
+Print Assumptions C17_after_producer.
 
 Theorem C17_not_same_step : forall g st W P s,
   In W (ready_list g st) -> In P (ready_list g st) -> In s (n_wait W) ->
